@@ -448,7 +448,8 @@ def C15(tier, seed):
                                      "overtakes queued messages; Modes.tla documents this)"], time.time() - t0, len(viols))
         return 1 if viols else 0
     finally:
-        shutil.rmtree(wd, ignore_errors=True)
+        if not os.environ.get("VERIF_KEEP"):
+            shutil.rmtree(wd, ignore_errors=True)
 
 
 def foreign_names(c):
@@ -626,7 +627,8 @@ def C14(tier, seed):
                          time.time() - t0, len(viols))
         return 1 if viols else 0
     finally:
-        shutil.rmtree(wd, ignore_errors=True)
+        if not os.environ.get("VERIF_KEEP"):
+            shutil.rmtree(wd, ignore_errors=True)
 
 
 C16_PARTS = [
@@ -769,7 +771,8 @@ def C16(tier, seed):
                                      "harness's own rendering of the parsed instants"], time.time() - t0, len(viols))
         return 1 if viols else 0
     finally:
-        shutil.rmtree(wd, ignore_errors=True)
+        if not os.environ.get("VERIF_KEEP"):
+            shutil.rmtree(wd, ignore_errors=True)
 
 
 def C19(tier, seed):
@@ -890,7 +893,8 @@ def C19(tier, seed):
                                      "by design and keep no record from being written)"], time.time() - t0, len(viols))
         return 1 if viols else 0
     finally:
-        shutil.rmtree(wd, ignore_errors=True)
+        if not os.environ.get("VERIF_KEEP"):
+            shutil.rmtree(wd, ignore_errors=True)
 
 
 def C11(tier, seed):
@@ -1062,7 +1066,8 @@ def C11(tier, seed):
                          time.time() - t0, len(viols))
         return 1 if viols else 0
     finally:
-        shutil.rmtree(wd, ignore_errors=True)
+        if not os.environ.get("VERIF_KEEP"):
+            shutil.rmtree(wd, ignore_errors=True)
         shutil.rmtree(shm, ignore_errors=True)
 
 
@@ -1221,7 +1226,8 @@ def C04(tier, seed):
                                      "are covered on the model side only)"], time.time() - t0, len(viols))
         return 1 if viols else 0
     finally:
-        shutil.rmtree(wd, ignore_errors=True)
+        if not os.environ.get("VERIF_KEEP"):
+            shutil.rmtree(wd, ignore_errors=True)
 
 
 REGISTRY["C04"] = C04
@@ -1343,7 +1349,8 @@ def C03(tier, seed):
                          time.time() - t0, len(viols))
         return 1 if viols else 0
     finally:
-        shutil.rmtree(wd, ignore_errors=True)
+        if not os.environ.get("VERIF_KEEP"):
+            shutil.rmtree(wd, ignore_errors=True)
 
 
 REGISTRY["C03"] = C03
@@ -1447,10 +1454,54 @@ def _c10_op_steps(cls, rng, nfam):
         return [{"op": "ParseNew", "spec": _rand_unicode(rng, rng.randint(1, 30))}]
     if cls == "restart":
         return [{"op": "Stop"}, {"op": "Start", "append": rng.random() < 0.5}]
+    if cls == "dir_removed":
+        # the environment removes the whole log directory under the running logger, then a rotation is due
+        return [{"op": "RmDir"}, {"op": "Log", "len": 120}, {"op": "Trigger"}, {"op": "Elf", "sel": rng.choice(C16_SELS)}]
     if cls == "reset":
         return [{"op": "Reset", "cfg": {"naming": rng.choice(["Num", "TsD"]), "rot": True, "size": 50, "subdir": f"fam{nfam}",
                                          "basename": f"app{nfam}", "full": True}}]
     return []
+
+
+def _c10_route_scenario(sc, x, rng):
+    """An output class x 3 operation classes of Robust.tla as a scenario of `flv route` (whole logger with additional
+    writers A (recording), B (file), S (syslog); default channel and write mode from the output class)."""
+    prim, mode = (x["cfg"]["outc"].split("_") + ["direct"])[:2]
+    cfg = {"kind": "frame", "writers": [{"name": "A", "kind": "rec", "ceil": 5}, {"name": "B", "kind": "flw", "ceil": 5},
+                                        {"name": "S", "kind": "syslog", "ceil": 5}],
+           "primary": prim, "dupe0": rng.choice([0, 0, 3, 6]), "dupo0": rng.choice([0, 0, 3, 6]),
+           "spec0": {"dflt": 5, "m": -1}, "crlf": False, "mode": mode, "thread": "", "tick": 1,
+           "ffile": "id", "ferr": "id", "fout": "id", "fpw": "id", "fA": "id", "fB": "id"}
+    base = {"op": "Log", "brace": False, "toks": [], "plain": "m", "lvl": 3, "mod": "m", "rec": False, "cls": "c10"}
+    steps = []
+    for o in x["steps"]:
+        s_ = dict(base)
+        if o == "log_recursive":
+            s_.update({"rec": True})
+        elif o == "log_recursive_brace":
+            s_.update({"rec": True, "brace": True, "toks": rng.choice([["A", "_Default"], ["_Default"], ["B", "_Default"]]),
+                       "plain": "", "ibrace": True, "itoks": rng.choice([["A", "_Default"], ["_Default"], ["X"]]), "iplain": ""})
+        elif o == "log_recursive_to_writer":
+            w = rng.choice(["A", "B", "S"])
+            s_.update({"rec": True, "brace": True, "toks": [w], "plain": "", "ibrace": True,
+                       "itoks": [rng.choice(["A", "B", "S"])], "iplain": ""})
+        elif o == "log_brace_default":
+            s_.update({"brace": True, "toks": ["A", "B", "S", "_Default"], "plain": ""})
+        elif o == "log_brace_open":
+            s_.update({"raw": rng.choice(["{", "{A", "{\u00e9", "{A,}", "{}"])})
+        elif o == "adapt_dup":
+            s_ = {"op": rng.choice(["AdaptErr", "AdaptOut"]), "d": rng.randint(0, 6)}
+        steps.append(s_)
+        steps.append(dict(base))
+    return {"sc": sc, "cfg": cfg, "t0": 34560000, "steps": steps, "origin": "tlc:MCRobust_std",
+            "tag": {"outc": x["cfg"]["outc"], "ops": "+".join(x["steps"])}}
+
+
+def _c10_route_facts(begin, ev, sl, pred):
+    c = begin.get("cfg", {})
+    return {"primary": c.get("primary"), "mode": c.get("mode"), "rec": bool(ev.get("rec")), "ev": ev.get("ev"),
+            "ret": str(ev.get("ret"))[:60], "tag.outc": (begin.get("tag") or {}).get("outc"),
+            "tag.ops": (begin.get("tag") or {}).get("ops")}
 
 
 def C10(tier, seed):
@@ -1472,7 +1523,7 @@ def C10(tier, seed):
             raise C.ToolError(f"Robust violates {r['violated']}")
         states, transitions = r["states"], r["transitions"]
         C.log(f"[C10] TLC MCRobust_q.cfg: {r['states']} distinct states: totality over the class catalogue (14 directory classes x "
-              f"6 namings x 9 format classes x append x sequences of 22 operation classes)")
+              f"6 namings x 8 format classes x append x sequences of 23 operation classes)")
         g = C.run_tlc("MCRobust.tla", os.path.join(C.SPEC, "MCRobust_gen.cfg" if tier == "quick" else "MCRobust_gent.cfg"),
                       os.path.join(wd, "gen"), workers=4, timeout=1800)
         reps = C.replay_lines(g)
@@ -1570,7 +1621,28 @@ def C10(tier, seed):
         scen_files.append(sfall)
         C.log(f"[C10] {nall} class combinations from TLC, {len(scens)} instantiated and executed ({events} events); judged by "
               f"MonC10.tla; {len(bads)} predicate failures; counters {counts}")
+        # ---- second catalogue: output classes x operation classes incl. recursive records (flv route, MonC10r.tla)
+        g2 = C.run_tlc("MCRobust.tla", os.path.join(C.SPEC, "MCRobust_std.cfg"), os.path.join(wd, "gen-std"), workers=4, timeout=900)
+        reps2 = C.replay_lines(g2)
+        states += g2["states"]
+        transitions += g2["transitions"]
+        nstd_all = len(reps2)
+        lim2 = 600 if tier == "quick" else 20000
+        if nstd_all > lim2:
+            rng.shuffle(reps2)
+            reps2 = reps2[:lim2]
+        rscens = [_c10_route_scenario(100001 + k, x, rng) for k, x in enumerate(reps2)]
+        res2 = C.run_sharded(pid, "MonC10r", rscens, wd, sub="route")
+        C.log(f"[C10] output classes: {nstd_all} combinations (13 output classes x sequences of 3 of 7 operation classes) from TLC, "
+              f"{len(rscens)} executed through the whole logger ({res2['events']} events); judged by MonC10r.tla; "
+              f"{len(res2['bads'])} predicate failures; counters {res2['counts']}")
+        v2, k2 = C.triage(pid, res2["bads"], res2["traces"], res2["scen_files"], extra_facts=_c10_route_facts, executor="route",
+                          monitor="MonC10r")
         viols, known = C.triage(pid, bads, traces, scen_files)
+        viols = viols + v2
+        known = known + k2
+        nsc += res2["scenarios"]
+        events += res2["events"]
         for fnd, cnt in known:
             C.log(f"KNOWN-FINDING: property={pid} {fnd['id']}: {fnd['what']} ({cnt} occurrences)")
         for v in viols[:10]:
@@ -1593,7 +1665,8 @@ def C10(tier, seed):
                          time.time() - t0, len(viols))
         return 1 if viols else 0
     finally:
-        shutil.rmtree(wd, ignore_errors=True)
+        if not os.environ.get("VERIF_KEEP"):
+            shutil.rmtree(wd, ignore_errors=True)
 
 
 REGISTRY["C10"] = C10
